@@ -144,6 +144,7 @@ def file_case(
     countries: Tuple[str, ...] = ("us",),
     max_assets: int = 3,
     hist: Optional[gen.GenCfg] = None,
+    min_assets: int = 1,
     windows: bool = True,
     shuffle_rows: bool = True,
     allow_from: bool = True,
@@ -155,7 +156,7 @@ def file_case(
 ) -> Dict[str, Any]:
     hist = hist or gen.GenCfg(min_steps=3, max_steps=12, max_exchanges=3, max_holders=2)
     country = draw(st.sampled_from(countries))
-    n_assets = draw(st.integers(1, max_assets))
+    n_assets = draw(st.integers(min_assets, max_assets))
     names = draw(st.permutations(ASSETS))[:n_assets]
     exchanges = gen.EXCHANGE_NAMES[: hist.max_exchanges]
     holders = gen.HOLDER_NAMES[: hist.max_holders]
